@@ -1491,6 +1491,10 @@ class BaseSpaceImpl(*_base_space_impl_base):
             self, clear_input=False, recursive=False, del_items=False):
         for cells in self.cells.values():
             cells.clear_all_values(clear_input=clear_input)
+            if not cells.is_cached:
+                # An uncached cells has no values of its own, but values of
+                # cached cells calculated through it must be cleared
+                self.model.clear_obj(cells)
         if del_items:
             self.del_all_itemspaces()
         if recursive:
